@@ -60,6 +60,10 @@ def eval_family(spec, x):
         return sum(g[i] * x[i] for i in range(n)) + spec.get("k", 0.0)
     if fam == "const":
         return spec["k"]
+    if fam == "step":
+        # integer-valued black box (a count, a floor): piecewise constant
+        g = spec["g"]
+        return float(math.floor(sum(g[i] * x[i] for i in range(n)))) - spec.get("k", 0.0)
     if fam == "ball":
         c = spec["c"]
         return sum((x[i] - c[i]) ** 2 for i in range(n)) - spec["r"] ** 2
